@@ -274,7 +274,7 @@ func (w *World) fieldByName(typ, field string) (*types.Var, error) {
 		if obj, ok := p.Types.Scope().Lookup(typ).(*types.TypeName); ok {
 			if st, ok := obj.Type().Underlying().(*types.Struct); ok {
 				for i := 0; i < st.NumFields(); i++ {
-					if st.Field(i).Name() == field {
+					if fieldName(st.Field(i)) == field {
 						return st.Field(i), nil
 					}
 				}
